@@ -12,6 +12,7 @@ import ProbLogModel.GroundAcyclic
 import ProbLogModel.Sem
 import ProbLogModel.Clark
 namespace ProbLogModel.GroundFO
+open ProbLogModel.Formula (lookup)
 
 /-- all lists of length `n` over `0..nc-1` (first position slowest) -/
 def tuples (nc : Nat) : Nat → List (List Const)
@@ -49,6 +50,55 @@ def inst (P : Prog) (natoms : Nat) : GroundAcyclic.Prog :=
 
 /-- the ground tuple `a` is an instance of the call arguments (constants equal, repeated variables consistent) -/
 def fits (args : List Val) (a : List Const) : Bool := (bindAnswer args a []).isSome
+
+/-! ### the hypotheses of the correctness theorem, decided (`ProbLogProofs.GroundFOSem.specOKb_sound`)
+
+`arL`: the arity of every predicate of the program; names are laid out as disjoint blocks
+`[baseOf p, baseOf p + nconsts ^ arity)` below `natoms`; `rk`: rank of the ground atoms (decreasing along bodies). -/
+
+/-- all constants of the tuple are `< nc` -/
+def inR (nc : Nat) (a : List Const) : Bool := a.all (fun x => decide (x < nc))
+
+def termInb (n : Nat) : Term → Bool
+  | .const _ => true
+  | .var i => decide (i < n)
+
+def termCb (nc : Nat) : Term → Bool
+  | .const c => decide (c < nc)
+  | .var _ => true
+
+def atomOKb (nc n : Nat) (ar : Pred → Option Nat) (b : Atom) : Bool :=
+  (ar b.pred == some b.args.length) && b.args.all (fun t => termInb n t && termCb nc t)
+
+def litOKb (nc n : Nat) (ar : Pred → Option Nat) : Lit → Bool
+  | .pos b => atomOKb nc n ar b
+  | .neg b => atomOKb nc n ar b
+  | .tt => true
+
+def hasVar (i : Nat) : Lit → Bool
+  | .pos b => b.args.contains (.var i)
+  | _ => false
+
+def clauseOKb (nc : Nat) (ar : Pred → Option Nat) (p : Pred) : Clause → Bool
+  | .fact args _ _ => (ar p == some args.length) && inR nc args
+  | .rule head n body _ =>
+    (ar p == some head.length) && head.all (fun t => termInb n t && termCb nc t) && body.all (litOKb nc n ar) &&
+      (List.range n).all (fun i => body.any (hasVar i))
+
+def layoutOKb (P : Prog) (natoms : Nat) (arL : List (Pred × Nat)) : Bool :=
+  arL.all (fun x => decide (P.baseOf x.1 + P.nconsts ^ x.2 ≤ natoms) &&
+    arL.all (fun y => x.1 == y.1 || decide (P.baseOf x.1 + P.nconsts ^ x.2 ≤ P.baseOf y.1) ||
+      decide (P.baseOf y.1 + P.nconsts ^ y.2 ≤ P.baseOf x.1)))
+
+def specOKb (P : Prog) (natoms : Nat) (arL : List (Pred × Nat)) (rk : Nat → Nat) : Bool :=
+  GroundAcyclic.nodupB (P.defs.map (·.1)) && GroundAcyclic.wfB (inst P natoms) natoms rk &&
+    P.defs.all (fun d => d.2.all (clauseOKb P.nconsts (lookup arL) d.1)) && layoutOKb P natoms arL
+
+/-- rank of a ground atom = rank of the predicate whose block of names contains it -/
+def blockRank (P : Prog) (arL : List (Pred × Nat)) (prk : List (Pred × Nat)) (a : Nat) : Nat :=
+  match arL.find? (fun x => decide (P.baseOf x.1 ≤ a) && decide (a < P.baseOf x.1 + P.nconsts ^ x.2)) with
+  | some x => (lookup prk x.1).getD 0
+  | none => 0
 
 end ProbLogModel.GroundFO
 
